@@ -26,6 +26,7 @@ pub fn script(seed: u64, name: &str, quick: bool) -> Vec<Case7> {
         "big" => 1,
         "hostile" => 2,
         "mid" => 3,
+        "many" => 4,
         _ => 0,
     });
     let mut ks: Vec<usize> = vec![];
@@ -39,6 +40,12 @@ pub fn script(seed: u64, name: &str, quick: bool) -> Vec<Case7> {
         ks.extend([4000, 10000]);
         if !quick {
             ks.extend([3970, 6589, 20000]);
+        }
+    } else if name == "many" {
+        // many small decodes in one default configuration per build: a divergence between builds that
+        // needs a particular received set (one in a few hundred) shows up here
+        for _ in 0..if quick { 3000 } else { 20000 } {
+            ks.push(rng.range(5, 60) as usize);
         }
     } else if name == "mid" {
         // large enough for several 64-bit words of dense columns per row (u > 64 from K ~ 1000) and
@@ -317,7 +324,7 @@ fn record(ctx: &Ctx) -> i32 {
         let c = j.get("case").unwrap();
         (c.st("script").to_string(), c.u("case_id") as usize)
     });
-    let mut scripts = vec!["hostile", "common"];
+    let mut scripts = vec!["hostile", "common", "many"];
     if build_name() == "release" {
         scripts.push("mid");
         scripts.push("big");
@@ -333,7 +340,7 @@ fn record(ctx: &Ctx) -> i32 {
             }
             sc.retain(|c| c.id == *id);
         }
-        let cfgs: Vec<Config> = if sname == "hostile" {
+        let cfgs: Vec<Config> = if sname == "hostile" || sname == "many" {
             // one configuration per build: default dispatch, default threshold, default route
             vec![Config { isa: if cfg!(feature = "full") { 0 } else { 4 }, thr: 250, route: 0 }]
         } else if sname == "big" {
@@ -483,7 +490,7 @@ fn compare(ctx: &Ctx) -> i32 {
         ctx.floor("event_logs", n_logs as u64, 30);
     }
     ctx.finish(
-        "one deterministic case script (K in 1..40, 100, 126, 127, 249, 250, 251, 300; T over residues mod 64; packets for first/random/top/overflow-sensitive ESIs; packet-by-packet decode of an arrival sequence with 0-2 overhead and a duplicate; one-shot block decode with overhead >= H) is executed by every configuration = build {release, checked (debug assertions + overflow checks), no_std} x ISA {native dispatch, AVX-512, AVX2, SSSE3, portable via the cap hook; no_std: portable} x sparse threshold {0,250,inf} on both encoder and decoder x plan route {new (cached / direct in no_std), explicit plan, unplanned}; release additionally runs a script with K in 477..2195 (3000) on all three thresholds (dense vs sparse with several words of dense columns per row) and one with K up to 10000 (20000) on the sparse thresholds; a panic on a valid input is reported even when every configuration panics alike; every build also runs the common script once on a single fresh thread in descending case order (history independence); each configuration logs `case op digest` and the offline checker requires all logs of a script to be line-for-line equal. non-trivial = a (case, op) line whose digest was produced by at least two configurations; distinct by (script, line)",
+        "one deterministic case script (K in 1..40, 100, 126, 127, 249, 250, 251, 300; T over residues mod 64; packets for first/random/top/overflow-sensitive ESIs; packet-by-packet decode of an arrival sequence with 0-2 overhead and a duplicate; one-shot block decode with overhead >= H) is executed by every configuration = build {release, checked (debug assertions + overflow checks), no_std} x ISA {native dispatch, AVX-512, AVX2, SSSE3, portable via the cap hook; no_std: portable} x sparse threshold {0,250,inf} on both encoder and decoder x plan route {new (cached / direct in no_std), explicit plan, unplanned}; release additionally runs a script with K in 477..2195 (3000) on all three thresholds (dense vs sparse with several words of dense columns per row) and one with K up to 10000 (20000) on the sparse thresholds; a panic on a valid input is reported even when every configuration panics alike; every build also runs 3 000 / 20 000 small random cases (K 5..60) in its default configuration (script `many`: divergences that need a particular received set) and the common script once on a single fresh thread in descending case order (history independence); each configuration logs `case op digest` and the offline checker requires all logs of a script to be line-for-line equal. non-trivial = a (case, op) line whose digest was produced by at least two configurations; distinct by (script, line)",
         &["NEON kernels cannot run on this x86-64 host", "serde/python features are not part of the property"],
         vec![],
     )
